@@ -196,12 +196,20 @@ package safehtml
 //@   ensures layout: isnil(err) ==> seqeq(r.str, cat(selector, "{", style.str, "}"))
 //@   ensures zero: !isnil(err) ==> len(r.str) == 0
 
+//@ func startsWithTwoSlashes(s string) (r bool)
+//@   serves C13
+//@   ensures spec: r == lead2(s, 0, 0)
+//@   loop 1
+//@     invariant 0 <= i && i <= len(s) && 0 <= slashes && slashes <= 1
+//@     invariant lead2(s, 0, 0) == lead2(s, i, slashes)
+//@     decreases len(s) - i
+
 //@ func trustedResourceURLFormat(format string, args map[string]string) (r TrustedResourceURL, err error)
 //@   serves C13
 //@   option uses C13.empty_in_qimg
 //@   ensures prefix: isnil(err) ==> inlang(re_safeTrustedResourceURLPrefixPattern, format)
 //@   ensures unsafe: !inlang(re_safeTrustedResourceURLPrefixPattern, format) ==> !isnil(err) && len(r.str) == 0
-//@   ensures hostkept: isnil(err) && !(len(format) >= 2 && format[0] == '/' && format[1] == '/') ==> !(len(r.str) >= 2 && r.str[0] == '/' && r.str[1] == '/')
+//@   ensures hostkept: isnil(err) && !(len(format) >= 2 && format[0] == '/' && format[1] == '/') ==> !lead2(r.str, 0, 0)
 //@   closure 1 (match string) (piece string)
 //@     ensures sticky: !isnil(before(err)) ==> !isnil(err)
 //@     ensures missing: !haskey(args, sub(match, 2, len(match) - 1)) ==> !isnil(err) && len(piece) == 0
@@ -221,4 +229,4 @@ package safehtml
 //@   serves C13
 //@   ensures prefix: isnil(err) ==> inlang(re_safeTrustedResourceURLPrefixPattern, format)
 //@   ensures unsafe: !inlang(re_safeTrustedResourceURLPrefixPattern, format) ==> !isnil(err) && len(r.str) == 0
-//@   ensures hostkept: isnil(err) && !(len(format) >= 2 && format[0] == '/' && format[1] == '/') ==> !(len(r.str) >= 2 && r.str[0] == '/' && r.str[1] == '/')
+//@   ensures hostkept: isnil(err) && !(len(format) >= 2 && format[0] == '/' && format[1] == '/') ==> !lead2(r.str, 0, 0)
